@@ -95,8 +95,7 @@ React(e, k) ==
     CASE st["c"] = "Finished" ->
            IF k = "T" THEN [same EXCEPT !.owe = {}, !.out = <<"AcT">>]
            ELSE IF k = "F4" THEN [same EXCEPT !.owe = {}, !.out = AckOf(owe \cup {"F4"})]
-           ELSE IF k = "F2" THEN [same EXCEPT !.owe = {}, !.out = AckOf(owe)]
-           ELSE same
+           ELSE same                               \* an old cleartext HelloRetryRequest wakes nothing any more
       [] fl["c"] = "F1" ->
            IF k = "F2" THEN [same EXCEPT !.fl = "F3", !.retx = TRUE, !.out = <<"F3">>]
            ELSE IF k = "F4" /\ ~HRR THEN [same EXCEPT !.fl = "F5", !.retx = TRUE, !.owe = {"F4"}, !.out = <<"F5">>]
@@ -106,8 +105,11 @@ React(e, k) ==
            ELSE IF k = "F2" /\ ~new THEN [same EXCEPT !.bk = Bump(bk0), !.out = <<"F3">>]
            ELSE same
       [] fl["c"] = "F5" ->
-           IF k = "As" THEN [same EXCEPT !.st = "Finished", !.est = TRUE, !.retx = FALSE]
-           ELSE IF k = "T" THEN [same EXCEPT !.st = "Finished", !.est = TRUE, !.retx = FALSE, !.owe = owe \cup {"T"}]   \* implicit acknowledgement
+           \* every wake-up of the flight machine takes the list of records still to be acknowledged with it; a reaction
+           \* that sends no ACK (completion by ACK or by post-handshake data) forgets that debt, the ticket included:
+           \* it is acknowledged only when the server retransmits it
+           IF k = "As" THEN [same EXCEPT !.st = "Finished", !.est = TRUE, !.retx = FALSE, !.owe = {}]
+           ELSE IF k = "T" THEN [same EXCEPT !.st = "Finished", !.est = TRUE, !.retx = FALSE, !.owe = {}]   \* implicit acknowledgement
            \* a duplicate of the peer's previous flight: acknowledge what is owed, send the final flight again
            ELSE IF k = "F4" /\ ~new THEN [same EXCEPT !.bk = Bump(bk0), !.owe = {}, !.out = AckOf(owe \cup {"F4"}) \o <<"F5">>]
            ELSE IF k = "F2" /\ ~new THEN [same EXCEPT !.bk = Bump(bk0), !.owe = {}, !.out = AckOf(owe) \o <<"F5">>]
